@@ -91,6 +91,11 @@ FRESH_PROGS = {
     "f": ("CREATE TABLE t_f (a int, b int) CLUSTER BY (a) DATA_RETENTION_TIME_IN_DAYS = 3; -- cf\nCREATE SEQUENCE sq_f START 2;\n", {}, {"output_mode": "snowflake", "group_by_type": True}),
     "g": ("CREATE TABLE t_g (a int, b int) ENGINE=InnoDB DEFAULT CHARSET=utf8; -- cg\n", {"normalize_names": True}, {"output_mode": "mysql", "json_dump": True}),
 }
+FRESH_PROGS.update({
+    # two objects that use the SAME rare statement forms (kind words of CREATE .. SCHEMA, an ALTER / INDEX on a table created elsewhere)
+    "h": ("CREATE REMOTE SCHEMA rs1;\nCREATE TRANSIENT SCHEMA tr1;\nCREATE TABLE rs1.t_h (a int); -- ch\nCREATE INDEX ix_h ON elsewhere (a);\n", {}, {"output_mode": "sql"}),
+    "i": ("CREATE REMOTE SCHEMA rs2;\nCREATE TRANSIENT SCHEMA tr2;\nCREATE EXTERNAL SCHEMA ex2;\nCREATE TABLE t_i (a int); -- ci\nCREATE INDEX ix_i ON elsewhere (a);\n", {}, {"output_mode": "sql"}),
+})
 MODE_DDL = ("CREATE EXTERNAL TABLE s1.t_m (a int NOT NULL, b varchar(5), c int ENCODE zstd) PARTITIONED BY (dt string) CLUSTERED BY (a) INTO 4 BUCKETS "
             "ROW FORMAT DELIMITED FIELDS TERMINATED BY ',' ESCAPED BY '#' STORED AS TEXTFILE LOCATION 's3://b/m' TBLPROPERTIES ('k'='v'); -- cm\n"
             "CREATE TABLE t_n (a int, b int) ENGINE=InnoDB TABLESPACE ts1;\nCREATE SEQUENCE sq_m START 2;\nALTER TABLE t_n ADD FOREIGN KEY (a) REFERENCES s1.t_m (a);\n")
